@@ -162,7 +162,7 @@ class BosonicModes:
         # Updated mode index permutation list
         self.to_xp = to_xp(self.nlen)
         self.from_xp = from_xp(self.nlen)
-        self.active.append(self.nlen - 1)
+        self.active += list(range(self.nlen - num_modes, self.nlen))
 
         # Weights are set equal to each other and normalized
         vac_weights = np.array([1 / num_gauss for i in range(num_gauss)], dtype=complex)
